@@ -10,6 +10,11 @@ import (
 // TestMain of the injected verification tests: private working directory
 // (dataPath is the relative path "data"), silence the chatty storage layer.
 func TestMain(m *testing.M) {
+	if os.Getenv("VERIF_CONSOLE_CHILD") == "1" {
+		// child mode of the process-level part of C20: be the console program
+		main()
+		os.Exit(0)
+	}
 	cfg := vlib.GetConfig()
 	dir := cfg.OutDir
 	if dir == "" {
